@@ -133,10 +133,17 @@ func runC16(ctx *Ctx, c *c16Case) (intervals []c16Interval, ok bool) {
 		text := fmt.Sprintf("dbPath: %s/fan2go.db\nsensors:\n  - id: s\n    file:\n      path: %s\ncurves:\n  - id: c\n    linear:\n      sensor: s\n      min: 40\n      max: 80\nfans:\n  - id: f\n    curve: c\n    file:\n      path: %s\n", cdir, sf, sf)
 		const envKey = "RUNFANINITIALIZATIONINPARALLEL"
 		_ = os.Unsetenv(envKey)
+		// every spelling strconv.ParseBool understands (viper's own conversion)
+		spell := map[bool][]string{false: {"false", "False", "FALSE", "f", "F", "0"}, true: {"true", "True", "TRUE", "t", "T", "1"}}[c.Parallel]
+		word := spell[int(hashStr(jsonStr(c)))%len(spell)]
 		if c.OptionVia == "yaml" {
-			text += fmt.Sprintf("runFanInitializationInParallel: %v\n", c.Parallel)
+			if int(hashStr(jsonStr(c)))%2 == 0 {
+				text += fmt.Sprintf("runFanInitializationInParallel: %v\n", c.Parallel)
+			} else {
+				text += fmt.Sprintf("runFanInitializationInParallel: %q\n", word)
+			}
 		} else {
-			_ = os.Setenv(envKey, fmt.Sprint(c.Parallel))
+			_ = os.Setenv(envKey, word)
 			defer os.Unsetenv(envKey)
 		}
 		cfgPath := filepath.Join(cdir, "fan2go.yaml")
